@@ -357,3 +357,73 @@ func VerifC15Mouse() {
 	zzverif.Assert(closed, "all-enters-closed-when-pointer-leaves")
 	zzverif.Reach("end")
 }
+
+// VerifC15FocusFrames: the focus path is recomputed after each frame: frame 1 is the chain
+// root -> A -> B; frame 2 keeps that chain, or hangs B directly under the root, or puts B
+// under another widget C, or drops B altogether; focus is on A or B (free). A key event after
+// frame 2 is routed along frame 2's ancestors of the focused widget; when the focused widget
+// has vanished it gets exactly one focus-out, the root exactly one focus-in, and the root
+// receives the key.
+func VerifC15FocusFrames() {
+	var log []verifLogEntry
+	mk := func(id int) *verifNode { return &verifNode{id: id, log: &log} }
+	rootW, a, b, c := mk(0), mk(1), mk(2), mk(3)
+	surf := func(w Widget, kids ...Surface) Surface {
+		s := Surface{Size: Size{Width: 3, Height: 1}, Widget: w}
+		for _, k := range kids {
+			s.Children = append(s.Children, NewSubSurface(0, 0, k))
+		}
+		return s
+	}
+	focused := []*verifNode{a, b}[zzverif.Choose("focused", 2)]
+	app := &App{}
+	app.fh = focusHandler{root: rootW, focused: focused}
+	app.fh.updatePath(app, surf(rootW, surf(a, surf(b))))
+	app.fh.handleEvent(app, vaxis.Key{Keycode: 'x'})
+	log = log[:0]
+	// frame 2
+	var frame2 Surface
+	var chain []int // ancestors of the focused widget in frame 2, root first, itself last
+	shape := zzverif.Choose("frame2", 4)
+	switch shape {
+	case 0:
+		frame2 = surf(rootW, surf(a, surf(b)))
+		chain = []int{0, 1, 2}
+	case 1:
+		frame2 = surf(rootW, surf(a), surf(b))
+		chain = []int{0, 2}
+	case 2:
+		frame2 = surf(rootW, surf(a), surf(c, surf(b)))
+		chain = []int{0, 3, 2}
+	case 3:
+		frame2 = surf(rootW, surf(a))
+		chain = nil // B is gone
+	}
+	if focused == a {
+		chain = []int{0, 1}
+	}
+	app.fh.updatePath(app, frame2)
+	if chain == nil {
+		want := []verifLogEntry{{2, 1, 2}, {0, 1, 1}}
+		same := len(log) == len(want)
+		for i := 0; same && i < len(want); i++ {
+			same = log[i] == want[i]
+		}
+		zzverif.Assert(same && app.fh.focused == Widget(rootW), "vanished-widget-loses-focus-to-the-root-exactly-once")
+		chain = []int{0}
+	}
+	log = log[:0]
+	app.fh.handleEvent(app, vaxis.Key{Keycode: 'y'})
+	// no node captures or consumes here: target, then bubble through the ancestors
+	var want []verifLogEntry
+	want = append(want, verifLogEntry{chain[len(chain)-1], 1, 0})
+	for i := len(chain) - 2; i >= 0; i-- {
+		want = append(want, verifLogEntry{chain[i], 2, 0})
+	}
+	same := len(log) == len(want)
+	for i := 0; same && i < len(want); i++ {
+		same = log[i] == want[i]
+	}
+	zzverif.Assert(same, "key-routed-along-the-current-frame's-ancestors")
+	zzverif.Reach("end")
+}
